@@ -118,7 +118,7 @@ def plan(tier, seed):
             for variant in ("noack", "burst", "ack", "fill"):
                 fl.append({"gen": "flood_ncid", "victim": victim, "variant": variant, "n": 5000 * scale, "seed": s})
             for variant in ("compliant", "hostile_conn", "hostile_count", "compliant_uni"):
-                fl.append({"gen": "flood_streams", "victim": victim, "variant": variant, "n": 4000 * scale, "seed": s})
+                fl.append({"gen": "flood_streams", "victim": victim, "variant": variant, "n": 1500 * scale, "seed": s})
     # interleave so that a budget cut-off loses a bit of everything
     out = []
     k = max(1, len(b) // max(1, len(fl)))
@@ -414,6 +414,30 @@ def hooked_window_open(R, model, op):
         return False
 
 
+def note_recount_risk(R, model, pre_reset, ops):
+    """Diagnosis for signatures only: a frame is about to reach a stream P has reset while R's hooked
+    receiver.highest_offset for it is still below the reset's final size, so R would charge those bytes again."""
+    try:
+        reset = dict(pre_reset)
+        high = {}
+        for op in ops:
+            if op["kind"] not in ("STREAM", "RESET_STREAM"):
+                continue
+            sid = op["sid"]
+            if sid not in high:
+                rs = R._streams.get(sid)
+                high[sid] = rs.receiver.highest_offset if rs is not None else 0
+            end = op["off"] + op["len"] if op["kind"] == "STREAM" else op["final"]
+            if sid in reset and reset[sid] > high[sid] and end > high[sid]:
+                model.diag_overcount = True
+            if op["kind"] == "RESET_STREAM":
+                reset.setdefault(sid, end)
+            else:
+                high[sid] = max(high[sid], end)
+    except Exception:
+        pass
+
+
 def recount_evidence(R, model):
     """Names the mechanism of a spurious FLOW_CONTROL_ERROR (signature only, never the verdict): R has charged more
     bytes to the connection than P sent, or holds a reset stream whose final size it did not record as received."""
@@ -506,11 +530,13 @@ def evaluate(res, case, pup, model, ops, verdicts, closed, R):
         res.count("o1_rejected_with_matching_code")
 
 
-def step_packet(res, case, pup, model, ops, R, burst_no_cycle=False):
-    """Send ops in one 1-RTT packet (after an ACK of everything R sent). Returns (closed, verdicts)."""
+def step_packet(res, case, pup, model, ops, R, no_cycle=False):
+    """Send ops in one 1-RTT packet (after an ACK of everything R sent). Returns (closed, verdicts).
+    no_cycle: R gets no send cycle after the datagram (back-to-back arrival) unless it wants to close."""
     from ..simnet import ApiRaised
 
     verdicts = []
+    pre_reset = {sid: st.final for sid, st in model.streams.items() if st.reset}
     model.diag_prefix_totals = [model.conn_hi]
     for op in ops:
         v = model.classify(op)
@@ -520,18 +546,25 @@ def step_packet(res, case, pup, model, ops, R, burst_no_cycle=False):
         model.apply(op, v)
         model.diag_prefix_totals.append(model.conn_hi)
     sent_ops = ops[: len(verdicts)]
+    note_recount_risk(R, model, pre_reset, sent_ops)
     del model.diag_prefix_totals[len(sent_ops):]  # a packet R closed on was processed up to, at most, its last-but-one frame
     payload = ack_prefix(pup) + b"".join(encode_op(o) for o in sent_ops)
     if len(payload) > MAX_PAYLOAD:
         raise RuntimeError("harness: packet payload of %d bytes would be dropped by R" % len(payload))
     try:
-        views = pup.deliver(pup.packet("1rtt", payload))
-        views += pup.cycle(steps=3, max_advance=0.02)
+        if no_cycle:
+            pup.now += 0.0001
+            pup.call("receive_datagram", pup.packet("1rtt", payload), pup.addr, now=pup.now)
+            views = pup.transmit() if (R._close_pending or R._state.name != "CONNECTED") else []
+        else:
+            views = pup.deliver(pup.packet("1rtt", payload))
+            views += pup.cycle(steps=3, max_advance=0.02)
     except ApiRaised as exc:
         res.count("obs_api_raised_" + type(exc.exc).__name__)  # totality is C05's property
         return ("api", False), verdicts
     model.on_r_frames(frames_of(views))
-    model.on_r_cycled()
+    if not no_cycle:
+        model.on_r_cycled()
     closed = r_closed(pup, views)
     evaluate(res, case, pup, model, sent_ops, verdicts, closed, R)
     if not closed and R._local_max_data.used > model.conn_hi:
@@ -666,6 +699,24 @@ STREAM_ATTRS = {"_streams", "_streams_queue"}
 SLACK = 65536
 
 
+def biggest_part(R, attr):
+    """attr, or attr.<sub-attribute holding most payload> when the attribute is a plain object (naming only)."""
+    try:
+        obj = getattr(R, attr)
+        d = vars(obj)
+    except Exception:
+        return attr
+    best, size = None, 0
+    for k, v in d.items():
+        try:
+            n = len(v) if isinstance(v, (bytes, bytearray, str, list, dict, set, tuple)) or type(v).__name__ == "deque" else 0
+        except Exception:
+            n = 0
+        if n > size:
+            best, size = k, n
+    return "%s.%s" % (attr, best) if best else attr
+
+
 class Walker:
     """Generic reachable-bytes measurement, attributed per attribute of the connection."""
 
@@ -785,7 +836,7 @@ class Bounds:
                     report[a] = (b, SLACK)
         for a, (b, allow) in sorted(report.items()):
             res.violation(
-                "O2:reachable-bytes-exceed-bound:%s" % a,
+                "O2:reachable-bytes-exceed-bound:%s" % biggest_part(self.R, a),
                 "after %d frames the payload bytes reachable through connection.%s grew by %d (bound for this structure + fixed slack = %d)" % (frames, a, b, allow),
                 self.case, {"growth": {k: v for k, v in growth.items() if v[0] > 4096}, **self.snapshot()},
             )
@@ -805,14 +856,24 @@ def flood_setup(batch, cfg, stage="complete"):
     return pair, pup, model, tp
 
 
+RELEVANT = {
+    "flood_crypto": ("crypto_held", "tls_receive_buffer"),
+    "flood_challenge": ("challenges_per_path", "challenges_all_paths", "network_paths"),
+    "flood_ncid": ("pending_retirements", "peer_cids_held"),
+    "flood_streams": ("stream_held", "streams_total_held", "open_peer_streams_bidi", "open_peer_streams_uni"),
+}
+
+
 def flood_finish(res, batch, bounds, frames, closed, extra=None):
     res.evaluations += 1
     res.count("o2_flood_runs")
     res.count("o2_flood_frames", frames)
     out = "closed:" + code_name(closed[0]) if closed else "open"
     res.count("o2_%s_%s_%s" % (batch["gen"], batch.get("variant", ""), out))
-    for k, v in bounds.max.items():
-        res.count("o2max_%s_%s_%s" % (batch["gen"][6:], batch.get("variant", ""), k), v)
+    for k in RELEVANT[batch["gen"]]:
+        if k in bounds.max:  # summed over runs by the runner: divide by o2_runs_<gen>_<variant>
+            res.count("o2sum_%s_%s_%s" % (batch["gen"][6:], batch.get("variant", ""), k), bounds.max[k])
+    res.count("o2_runs_%s_%s" % (batch["gen"][6:], batch.get("variant", "")))
     if frames >= min(batch["n"], 1000) or closed:
         res.nontrivial.add("flood:%s:%s:%s:%s:%s" % (batch["gen"], batch["victim"], batch.get("space", ""), batch.get("variant", ""), out))
     s = {"case": batch, "frames": frames, "outcome": out, "max": bounds.max}
@@ -1000,6 +1061,7 @@ def gen_flood_streams(batch, res):
     cfg = {"md": 1 << 16, "msd": 64, "msb": 16, "msu": 16}
     if variant == "hostile_conn":
         cfg = {"md": 20000, "msd": 1000, "msb": 128, "msu": 128}
+    hostile = variant.startswith("hostile")  # datagrams arrive back to back: R cannot raise a limit in between
     pair, pup, model, tp = flood_setup(batch, cfg)
     R = pup.victim
     b = Bounds(res, batch, pup, model, tp)
@@ -1051,7 +1113,9 @@ def gen_flood_streams(batch, res):
             model.on_r_frames(frames_of(views))
             continue
         stall = 0
-        closed, verdicts = step_packet(res, batch, pup, model, [op], R)
+        closed, verdicts = step_packet(res, batch, pup, model, [op], R, no_cycle=hostile and frames % 50 != 49)
+        if verdicts[-1].kind == "reject" and not closed:
+            model.apply(op, type(verdicts[-1])("accept"))  # R let it pass (reported by O1): keep counting what P sent
         nxt[bool(op["sid"] & 2)] += 1
         frames += 1
         if frames == 100 and not base_done:
